@@ -500,7 +500,7 @@ var c18Malformed = []struct {
 }
 
 func TestC18(t *testing.T) {
-	col := stats.New("C18", "a typed expression tree (condition of depth 1-4 over all 15 operators, negation, fact paths of every addressing form, calls, constants incl. hostile strings) and 1-3 actions are generated and converted into the JSON rule format with drawn choices per node: operator objects (chains of one operator flattened into n-ary objects of arity 2-4 = left fold), unary not over operator objects, plain-string operands (raw GRL of an atom), JSON numbers and booleans, obj/const wrappers, call objects, set objects, plain-string actions with/without semicolon; single-rule and rule-set form (the rule among 0-3 other, never satisfied rules that state or omit description and salience on their own); description and salience drawn. Oracle: the translator's output is accepted by the builder with the JSON's name, description and salience; its FetchMatchingRules membership and the facts left by one firing equal those of the same tree rendered by the harness's own printer with explicit grouping and own string quoting, built through the same engine (so evaluator defects cannot leak in), on a generated fact state; where the two agree, the condition's value is also compared with the reference interpreter's; 50 fixed malformed inputs (empty, blank, not JSON, unknown operator, arity 0, and/or arity <2, two keys, missing/empty name, missing/null when/then, wrong JSON types, bad salience, bad set/call arity, non-identifier name, truncated JSON ...) must end in an error from the translator or the builder, never a panic or a usable rule. Non-trivial: a lower-precedence operator nested in a higher one, or a string constant that needs escaping. Distinct by the JSON text.",
+	col := stats.New("C18", "a typed expression tree (condition of depth 1-4 over all 15 operators, negation, fact paths of every addressing form, calls, constants incl. hostile strings) and 1-3 actions are generated and converted into the JSON rule format with drawn choices per node: operator objects (chains of one operator flattened into n-ary objects of arity 2-4 = left fold), unary not over operator objects, plain-string operands (raw GRL of an atom), JSON numbers and booleans, obj/const wrappers, call objects, set objects, plain-string actions with/without semicolon; single-rule and rule-set form (the rule among 0-3 other, never satisfied rules that state or omit description and salience on their own); description and salience drawn. Oracle: the translator's output is accepted by the builder with the JSON's name, description and salience; its FetchMatchingRules membership and the facts left by one firing equal those of the same tree rendered by the harness's own printer with explicit grouping and own string quoting, built through the same engine (so evaluator defects cannot leak in), on a generated fact state; where the two agree, the condition's value is also compared with the reference interpreter's; 50 fixed malformed inputs (empty, blank, not JSON, unknown operator, arity 0, and/or arity <2, two keys, missing/empty name, missing/null when/then, wrong JSON types, bad salience, bad set/call arity, non-identifier name, truncated JSON ...) must end in an error from the translator or the builder, never a panic or a usable rule. A twelfth of the conditions state that a string constant from the hostile pool (quotes, escapes, Latin-1 and other non-ASCII text) equals - by ==, by a negated != or by length - a fact field that was given the constant's value. Non-trivial: a lower-precedence operator nested in a higher one, or a string constant that needs escaping. Distinct by the JSON text.",
 		"plain-string operands are raw GRL by documentation: the generator only puts atoms there",
 		"arity 1 is only used for unary not over an operator object (the one unary form the repository defines)")
 	defer col.Flush()
@@ -531,6 +531,21 @@ func TestC18(t *testing.T) {
 			l, _ := g.Int(rapid.IntRange(1, 2).Draw(rt, "neg_int_depth"))
 			r, _ := g.Int(1)
 			cond = &gast.Not{X: &gast.Paren{X: &gast.Bin{Op: cmp6[rapid.IntRange(0, 5).Draw(rt, "neg_int_op")], L: g.NoBarePtr(l, false), R: g.NoBarePtr(r, false)}}}
+		case 3:
+			// a string constant denotes exactly its characters: a fact field is given the constant's value and compared
+			// with it (the constants come from the hostile pool: quotes, escapes, Latin-1 and other non-ASCII text)
+			h := rapid.SampledFrom(gen.HostileStrings).Draw(rt, "identity_string")
+			st.Go["F"].S2 = h
+			switch rapid.IntRange(0, 3).Draw(rt, "identity_form") {
+			case 0:
+				cond = &gast.Bin{Op: gast.OpEq, L: gast.P("F", "S2"), R: gast.S(h)}
+			case 1:
+				cond = &gast.Not{X: &gast.Paren{X: &gast.Bin{Op: gast.OpNEq, L: gast.S(h), R: gast.P("F", "S2")}}}
+			case 2:
+				cond = &gast.Bin{Op: gast.OpEq, L: &gast.Call{Recv: gast.S(h), Name: "Len"}, R: &gast.Call{Recv: gast.P("F", "S2"), Name: "Len"}}
+			default:
+				cond = &gast.Bin{Op: gast.OpAnd, L: &gast.Paren{X: cond}, R: &gast.Bin{Op: gast.OpEq, L: gast.P("F", "S2"), R: gast.S(h)}}
+			}
 		}
 		name := "JR" + fmt.Sprint(rapid.IntRange(0, 99).Draw(rt, "name"))
 		var thens []gast.Stmt
